@@ -181,7 +181,10 @@ func (s *grpcServer) FetchBlob(ctx context.Context, req *asset.FetchBlobRequest)
 			}, nil
 		}
 
-		if translateGRPCErrCodeFromClient(err) == codes.ResourceExhausted {
+		if translateGRPCErrCodeFromClient(err) == codes.ResourceExhausted ||
+			gRPCErrCode(err, codes.Unknown) == codes.ResourceExhausted {
+			// The disk cache reports overload as a *cache.Error with
+			// http.StatusInsufficientStorage, not as a grpc status.
 			return &resourceExhaustedResponse, nil
 		}
 
